@@ -95,7 +95,17 @@ func gen(t *rapid.T) Case {
 	}
 	c := Case{BlobSeed: rapid.Uint32().Draw(t, "blob_seed")}
 	c.PieceLen = rapid.OneOf(rapid.IntRange(1, 64), rapid.IntRange(1, 8192), rapid.SampledFrom([]int{1, 2, 4096, 8192})).Draw(t, "piece_len")
-	np := rapid.OneOf(rapid.IntRange(1, 3), rapid.IntRange(4, 24), rapid.IntRange(4, maxPieces), rapid.IntRange(4, maxPieces)).Draw(t, "num_pieces")
+	// Piece sets travel as 64-bit words: counts next to a word boundary are a class of their own.
+	var boundary []int
+	for _, b := range []int{63, 64, 65, 127, 128, 129, 191, 192, 193} {
+		if b <= maxPieces {
+			boundary = append(boundary, b)
+		}
+	}
+	np := rapid.OneOf(rapid.IntRange(1, 3), rapid.IntRange(4, 24), rapid.IntRange(4, maxPieces), rapid.IntRange(4, maxPieces), rapid.SampledFrom(boundary)).Draw(t, "num_pieces")
+	if np >= 63 && (np-1)*c.PieceLen+1 > 64*1024 {
+		c.PieceLen = (64*1024 - 1) / (np - 1)
+	}
 	for (np-1)*c.PieceLen+1 > 64*1024 {
 		np--
 	}
@@ -168,8 +178,9 @@ func TestProp(t *testing.T) {
 			"piece selection policy, join delays, pieces already on disk, tracker handout policy and short announce/pre-emption/idle/request-timeout intervals; optionally one peer (seeder or leecher) whose storage " +
 			"serves bit-flipped pieces (all / every k-th / only the first N reads) and one peer that stops mid-transfer. Oracle: every Download that returns nil left a cache file byte-identical to the blob (all agents), and every honest, " +
 			"non-departing agent's Download returns nil within 60 s; a case that does not converge is re-run up to 3 more times and only reported when no run converges (otherwise discarded as flaky_inconclusive). " +
-			"Non-trivial = an honest staying leecher fetched at least 2 pieces over the network and the swarm saw a disturbance (a corrupted piece was delivered to another peer, a peer left while others were incomplete, a connection was blacklisted, " +
-			"or a leecher got pieces from 2+ sources); distinct by case hash",
+			"Part handshake (what makes a seeder's pieces reachable at all): two real handshakers on loopback TCP exchange handshakes for a torrent of 1-400 pieces (biased to 64-bit word boundaries) with generated piece sets on both sides and 0-3 relayed neighbour piece sets; each side must see exactly the piece set (and neighbour sets) the other announced. " +
+			"Non-trivial (swarm) = an honest staying leecher fetched at least 2 pieces over the network and the swarm saw a disturbance (a corrupted piece was delivered to another peer, a peer left while others were incomplete, a connection was blacklisted, " +
+			"or a leecher got pieces from 2+ sources); non-trivial (handshake) = some side announces a non-empty piece set; distinct by case hash",
 		Assumptions: []string{
 			"schedules are sampled (real goroutines and sockets), not owned: a violation that needs a rare interleaving can be missed and a found one may need several replays",
 			"convergence is judged as completion within 60 s wall clock, confirmed by 3 re-runs of the same case; the intervals are scaled to tens/hundreds of milliseconds (production: seconds)",
@@ -178,6 +189,6 @@ func TestProp(t *testing.T) {
 			"the corrupting peer flips one byte of a piece and keeps its length: the CRC32 piece sum detects every such change",
 			"the tracker is kraken's trackerserver handler with the in-memory test peer store and a fixed origin list; peers that left stay in the handout, as with the real peer store TTL",
 		},
-		Parts: []pbt.Part{pbt.NewPart("swarm", 1, gen, run)},
+		Parts: []pbt.Part{pbt.NewPart("swarm", 1, gen, run), pbt.NewPart("handshake", 10, genHS, runHS)},
 	})
 }
